@@ -168,7 +168,7 @@ def do_adjust(pid, which):
 
 
 # ------------------------------------------------------------------------------------------------ AntiWindup
-def antiwindup(pid):
+def antiwindup(pid, stale=False):
     """AntiWindup.check_eq: a state beyond a limit whose derivative pushes further out is clamped to that limit and its
     derivative zeroed; the pegged addresses and values are recorded in x_set."""
     N = fresh('N', I)
@@ -254,6 +254,18 @@ def antiwindup(pid):
                  ('x_set-records-exactly-the-pegged-addresses-values-and-zero-derivative', post_xset)],
         modifies=['self.zu', 'self.zl', 'self.zi', 'self.zu0', 'self.zl0', 'self.state.e', 'self.state.v', 'self.x_set'])
     c.merge = False      # x_set shape differs between the two arms: keep the paths apart
+    if stale:
+        # entry state of every call but the first: x_set still holds the record of the previous call
+        def pre_state(st):
+            a0 = st.new_ref(ArrC(fresh('stale_addr', z3.ArraySort(I, R)), fresh('stale_n', I), None, kind='int'), 'stale_a')
+            v0 = st.new_ref(ArrC(fresh('stale_val', z3.ArraySort(I, R)), st.content(a0).n, None), 'stale_v')
+            st.heap['self.x_set'] = st.new_ref(ListC([(a0, v0, 0)]), 'x_set0')
+        c.pre_state = pre_state
+        c.tag = 'x_set-holds-previous-record'
+    else:
+        def pre_state0(st):
+            st.heap['self.x_set'] = st.new_ref(ListC([]), 'x_set0')      # as left by __init__ / by a call with nothing pegged
+        c.pre_state = pre_state0
     return c
 
 
